@@ -779,6 +779,20 @@ pub fn gen_cluster_scenario(rng: &mut rand::rngs::SmallRng, k: &GenKnobs) -> Sce
         let level = if rng.gen_bool(k.level_bias_none) { "None" } else { levels[rng.gen_range(0..levels.len())] };
         events.push(Ev::Op { t, node: *ids.choose(rng).unwrap(), spec: OpSpec { kind: kind.to_string(), ks: kss.choose(rng).unwrap().clone(), ids: idv, level: level.to_string(), dup: kind.ends_with("many") && kind.starts_with("put") && rng.gen_bool(0.15), empty: kind.starts_with("put") && rng.gen_bool(0.12) } });
     }
+    // a key is deleted and written again within one batching interval of the distributor (1 s), by
+    // the same or another node: the batched delete travels after the put was issued
+    if rng.gen_bool(0.5) {
+        for _ in 0..rng.gen_range(1..=3) {
+            let t = rng.gen_range(0..span);
+            let ks = kss.choose(rng).unwrap().clone();
+            let id = rng.gen_range(0..nids);
+            let a = *ids.choose(rng).unwrap();
+            let b = *ids.choose(rng).unwrap();
+            events.push(Ev::Op { t, node: a, spec: OpSpec { kind: "del".to_string(), ks: ks.clone(), ids: vec![id], level: "None".to_string(), dup: false, empty: false } });
+            let level = if rng.gen_bool(0.5) { "None" } else { levels[rng.gen_range(0..levels.len())] };
+            events.push(Ev::Op { t: t + rng.gen_range(3..900), node: b, spec: OpSpec { kind: "put".to_string(), ks, ids: vec![id], level: level.to_string(), dup: false, empty: false } });
+        }
+    }
     // fault kinds: a random subset per run (swarm)
     let f_hold = rng.gen_bool(0.5);
     let f_crash = rng.gen_bool(0.35) && n >= 2;
